@@ -20,6 +20,6 @@ func c05Params() GenParams {
 func TestVerif_C05_rejected(t *testing.T) {
 	runHistoryProperty(t, "C05", "rejected",
 		"rapid-generated histories of 6-40 engine ops in which ~45% of the data ops are drawn invalid for the state they are issued in (duplicate id alone / as one batch item, unknown index or node, wrong dimension, bad edge properties, duplicate index name or invalid metric x precision, nil vector on an index without dimension, unsupported / repeated compression target); for each op that returns an error: full read-out before == after; model (which ignores rejected ops) == engine after each restart and at the end; non-trivial = at least one rejected op on a non-empty state followed by a restart",
-		c05Params(), HistoryMode{RejectedNoop: true, RoundTrip: true, FinalRestart: true}, 300, 20000,
+		c05Params(), HistoryMode{RejectedNoop: true, RoundTrip: true, FinalRestart: true}, 1000, 30000,
 		func(l map[string]bool) bool { return l["has-restart"] && l["restart-after-write"] })
 }
